@@ -101,8 +101,21 @@ func (b Branch) MedianTimeAndWork(ctx context.Context,
 		height--
 	}
 
-	// Sort by time
-	sort.Sort(list)
+	// Sort by time. For three headers use the same compare and swap steps as the network so that
+	// the same header is selected when headers have equal times.
+	if count == 3 {
+		if list[0].time > list[2].time {
+			list.Swap(0, 2)
+		}
+		if list[0].time > list[1].time {
+			list.Swap(0, 1)
+		}
+		if list[1].time > list[2].time {
+			list.Swap(1, 2)
+		}
+	} else {
+		sort.Sort(list)
+	}
 
 	// Get values from the middle item in the list.
 	result := list[count/2]
